@@ -203,11 +203,22 @@ Qed.
 Lemma match_le_len s z r m : zof s z -> wf r = true -> match_at (b_uni C) r z = Some m -> snd (fst m) <= length s.
 Proof. intros Hz W H. pose proof (match_at_bound _ _ _ _ W H). pose proof (zof_len _ _ Hz). lia. Qed.
 
+(* which patterns a rule name can stand for: its specification, or one of the list-item scanner's variants *)
+Definition rule_of (rk : brule) (r : rx) : Prop :=
+  rk = RListItem \/ r = b_spec C rk \/ exists w, In (rk, r) (b_lb_rules C w).
+
 (* what a handler may assume about the match it is given *)
 Definition mok (rk : brule) (m : mresult) (st : bstate) : Prop :=
   Block.mstart m = s_cursor st /\ s_cursor st < Block.mend m /\ Block.mend m <= cursor_max st /\
-  (rk = RRawHtml \/ rk = RBlockHtml ->
-   exists r z, hf SP 60%Z r = true /\ wf r = true /\ zof (s_src st) z /\ z_idx z = s_cursor st /\ match_at (b_uni C) r z = Some m).
+  exists r z, rule_of rk r /\ wf r = true /\ zof (s_src st) z /\ z_idx z = s_cursor st /\ match_at (b_uni C) r z = Some m.
+
+Lemma rule_of_html rk r : rule_of rk r -> rk = RRawHtml \/ rk = RBlockHtml -> hf SP 60%Z r = true.
+Proof.
+  intros [H|[->|(w & Hin)]] Hk.
+  - destruct Hk; subst; discriminate.
+  - apply (bk_html_hf OK). exact Hk.
+  - apply (bk_lb_hf OK w rk r Hin Hk).
+Qed.
 
 Lemma bsearch_spec rules s pos rk m : pos <= length s -> bsearch C rules s pos = Some (rk, m) ->
   forall st, s_src st = s -> s_cursor st = Block.mstart m -> pos <= Block.mstart m /\ mok rk m st.
@@ -220,8 +231,8 @@ Proof.
   assert (E1 : Block.mstart m = z_idx z') by exact A.
   assert (E2 : z_idx z' < Block.mend m) by exact Cc.
   split; [lia|]. unfold mok, cursor_max. rewrite Hsrc, Hcur. split; [reflexivity|]. split; [lia|]. split; [exact Hlen|].
-  intros Hk. exists r, z'. unfold named in Hin. apply in_map_iff in Hin. destruct Hin as (x & Hx & _). inversion Hx; subst x r.
-  split; [apply (bk_html_hf OK); exact Hk|]. split; [apply (solid_wf _ S)|]. split; [exact Hz'|]. split; [lia|exact Hm].
+  exists r, z'. unfold named in Hin. apply in_map_iff in Hin. destruct Hin as (x & Hx & _). inversion Hx; subst x r.
+  split; [right; left; reflexivity|]. split; [apply (solid_wf _ S)|]. split; [exact Hz'|]. split; [lia|exact Hm].
 Qed.
 
 Lemma bmatch_rules_spec rules s pos rk m : rules_solid rules -> pos <= length s -> bmatch_rules C rules s pos = Some (rk, m) ->
@@ -298,7 +309,7 @@ Qed.
 Lemma handle_html_spec rk m st rf st2 rf2 np : rk = RRawHtml \/ rk = RBlockHtml -> mok rk m st -> handle_html C m st rf = (st2, rf2, np) ->
   s_src st2 = s_src st /\ (forall p, Block.truthy np = Some p -> s_cursor st < p) /\ (Block.truthy np = None -> s_cursor st2 = s_cursor st).
 Proof.
-  intros Hk (M1 & M2 & M3 & M4) H. destruct (M4 Hk) as (r & z & Hh & W & Hz & Hi & Hm).
+  intros Hk (M1 & M2 & M3 & M4) H. destruct M4 as (r & z & Hro & W & Hz & Hi & Hm). pose proof (rule_of_html rk r Hro Hk) as Hh.
   assert (Hc : s_cursor st < cursor_max st) by lia.
   assert (Hend : forall em st' e, html_to_end C st em (Block.mend m) = (st', e) -> (st', rf, Some e) = (st2, rf2, np) ->
             s_src st2 = s_src st /\ (forall p, Block.truthy np = Some p -> s_cursor st < p) /\ (Block.truthy np = None -> s_cursor st2 = s_cursor st)).
@@ -476,11 +487,11 @@ Qed.
 Lemma mok_of_bmatch rules st rk m r : rules_solid rules -> s_cursor st <= length (s_src st) ->
   In (rk, r) rules -> match_at (b_uni C) r (zip_at (s_src st) (s_cursor st) (length (s_src st))) = Some m ->
   Block.mstart m = s_cursor st -> s_cursor st < Block.mend m -> Block.mend m <= length (s_src st) ->
-  (rk = RRawHtml \/ rk = RBlockHtml -> hf SP 60%Z r = true) -> mok rk m st.
+  rule_of rk r -> mok rk m st.
 Proof.
-  intros Hs Hp Hin Hm A B Cc Hh. unfold mok, cursor_max. repeat split; auto.
-  intros Hk. exists r, (zip_at (s_src st) (s_cursor st) (length (s_src st))).
-  split; [apply Hh; exact Hk|]. split; [apply (solid_wf _ (Hs rk r Hin))|]. split; [apply zof_zip_at; exact Hp|].
+  intros Hs Hp Hin Hm A B Cc Hro. unfold mok, cursor_max. split; [exact A|]. split; [exact B|]. split; [exact Cc|].
+  exists r, (zip_at (s_src st) (s_cursor st) (length (s_src st))).
+  split; [exact Hro|]. split; [apply (solid_wf _ (Hs rk r Hin))|]. split; [apply zof_zip_at; exact Hp|].
   split; [apply zip_at_idx; rewrite Nat.min_id; exact Hp|exact Hm].
 Qed.
 
@@ -519,7 +530,7 @@ Proof.
     + destruct (bmatch_rules_spec _ _ _ _ _ (named_solid _) Hp Eb) as (r & Hin & Hm & A & B & Cc).
       assert (Hmok : mok rk m4 st).
       { apply (mok_of_bmatch (named C QUOTE_BREAKS) st rk m4 r (named_solid _) Hp Hin Hm A B Cc).
-        intros Hk. rewrite (named_in _ _ _ Hin). apply (bk_html_hf OK). exact Hk. }
+        right; left. exact (named_in _ _ _ Hin). }
       unfold bind. pose proof (Hn rk m4 st rf Hmok) as Hf.
       destruct (h rk m4 st rf) as [[[st2 rf2] np]| |] eqn:Eh; [|split; [discriminate|intros; discriminate]|contradiction].
       destruct (Hs _ _ _ _ _ _ _ Hmok Eh) as (T1 & T2 & T3).
@@ -593,7 +604,7 @@ Proof.
 Qed.
 
 Lemma item_loop_spec h sc cs te : hspec h -> hnofuel h -> rules_solid sc ->
-  (forall rk r, In (rk, r) sc -> rk = RRawHtml \/ rk = RBlockHtml -> hf SP 60%Z r = true) ->
+  (forall rk r, In (rk, r) sc -> rule_of rk r) ->
   forall iters st rf src pb tight pos, pos = s_cursor st -> cursor_max st - s_cursor st < iters ->
   ispec st (item_loop C h iters sc cs te st rf src pb tight pos).
 Proof.
@@ -645,22 +656,22 @@ Lemma sc_props bullet w :
             | x :: rest => x :: (RListItem, b_item_rx C bullet w) :: rest
             | [] => [(RListItem, b_item_rx C bullet w)]
             end in
-  rules_solid sc /\ (forall rk r, In (rk, r) sc -> rk = RRawHtml \/ rk = RBlockHtml -> hf SP 60%Z r = true).
+  rules_solid sc /\ (forall rk r, In (rk, r) sc -> rule_of rk r).
 Proof.
   cbv zeta. destruct (b_lb_rules C w) as [|x rest] eqn:El.
   - split.
     + intros rk r [Hin|[]]. inversion Hin; subst. apply (bk_item OK).
-    + intros rk r [Hin|[]] Hk. inversion Hin; subst. destruct Hk; discriminate.
+    + intros rk r [Hin|[]]. inversion Hin; subst. left. reflexivity.
   - assert (Hlb : forall rk r, In (rk, r) (x :: rest) -> In (rk, r) (b_lb_rules C w)) by (intros; rewrite El; assumption).
     split.
     + intros rk r [Hin|[Hin|Hin]].
       * apply (bk_lb OK w rk r). apply Hlb. left. exact Hin.
       * inversion Hin; subst. apply (bk_item OK).
       * apply (bk_lb OK w rk r). apply Hlb. right. exact Hin.
-    + intros rk r [Hin|[Hin|Hin]] Hk.
-      * apply (bk_lb_hf OK w rk r); [apply Hlb; left; exact Hin|exact Hk].
-      * inversion Hin; subst. destruct Hk; discriminate.
-      * apply (bk_lb_hf OK w rk r); [apply Hlb; right; exact Hin|exact Hk].
+    + intros rk r [Hin|[Hin|Hin]].
+      * right; right. exists w. apply Hlb. left. exact Hin.
+      * inversion Hin; subst. left. reflexivity.
+      * right; right. exists w. apply Hlb. right. exact Hin.
 Qed.
 
 Lemma items_loop_spec h bullet : hspec h -> hnofuel h ->
@@ -748,7 +759,7 @@ Proof.
         destruct (bmatch_rules_spec _ _ _ _ _ (named_solid _) Hp Eb) as (r & Hin & Hmm & A & B & Cc).
         assert (Hmok : mok rk2 m2 st).
         { apply (mok_of_bmatch (named C [RThematic; RList]) st rk2 m2 r (named_solid _) Hp Hin Hmm A B Cc).
-          intros Hk. rewrite (named_in _ _ _ Hin). apply (bk_html_hf OK). exact Hk. }
+          right; left. exact (named_in _ _ _ Hin). }
         split; [apply Hn; exact Hmok|]. intros st2 rf2 np Heq. exact (Hs _ _ _ _ _ _ _ Hmok Heq).
       * apply contract_pure. intros st2 rf2 np Heq. inversion Heq; subst. split; [reflexivity|]. split; [intros p Hp; discriminate|reflexivity].
   - (* thematic *) apply contract_pure. intros st2 rf2 np Heq. inversion Heq; subst. finish_some ltac:(lia).
